@@ -578,6 +578,14 @@ def get_app_pending_mutations(app, evolution_labels=[], mutations=None,
             if app_sig.get_model_sig(old_model_sig.model_name) is None
         )
 
+        # A model that one of these mutations renames a changed model to
+        # is that same changed model, under its new name. Mutations that
+        # follow the rename refer to it by that name.
+        for mutation in mutations:
+            if (isinstance(mutation, RenameModel) and
+                mutation.old_model_name in changed_models):
+                changed_models.add(mutation.new_model_name)
+
         # We should now have a full list of which models changed. Filter
         # the list of mutations appropriately.
         #
